@@ -4,7 +4,7 @@ import re
 from ..core.engine import Res
 from ..core.rules import struct_map, who_writes, must_pass, order, wire, who_calls, call_matches, pair
 from ..core.origins import Origins
-from ..core.facts import callee_name
+from ..core.facts import callee_name, AnchorMissing
 from ..core import codec
 
 CONFIGS = {'quick': ['A', 'P'], 'thorough': ['A', 'B', 'C', 'D', 'P']}
@@ -62,9 +62,51 @@ def sql_scope(P):
     return r
 
 
+STORED_ROOTS = ('mls_rs::group::snapshot::Snapshot', 'mls_rs::group::epoch::PriorEpoch')
+
+
+def stored_types(P):
+    """short names of every ADT reachable through field types from the two records a storage write consists of"""
+    by_last = {}
+    for k in P.adts:
+        by_last.setdefault(k.split('::')[-1], []).append(k)
+    seen, todo = set(), [r for r in STORED_ROOTS if r in P.adts]
+    while todo:
+        k = todo.pop()
+        if k in seen:
+            continue
+        seen.add(k)
+        for v in P.adts[k]['variants']:
+            for f in v['fields']:
+                for tok in re.findall(r'[A-Za-z_][\w:]*', f['ty']):
+                    last = tok.split('::')[-1]
+                    for cand in by_last.get(last, []):
+                        tail = tok.split('::')
+                        if cand.split('::')[-len(tail):] == tail or len(tail) == 1:
+                            todo.append(cand)
+    return seen
+
+
+def stored_codec(P):
+    """size / encode / decode of every stored type agree (same rule as C12, restricted to the closure of Snapshot and PriorEpoch):
+    with fast_serialize the length prefix of an enclosing collection comes from MlsSize, so a disagreement makes the written
+    snapshot or epoch record undecodable on load"""
+    from .C12 import rule_codec
+    st = stored_types(P)
+    if len(st) < 2:
+        raise AnchorMissing('Snapshot / PriorEpoch not found')
+    names = set(k.split('::')[-1] for k in st)
+    r = rule_codec(P, only=lambda crate, ty: re.sub(r'<.*', '', ty).split('::')[-1] in names)
+    r.detail = dict(r.detail or {}, stored_adts=len(st))
+    return r
+
+
 def run(ctx):
     P = ctx.P
     cfg = ctx.config
+    if cfg != 'P':
+        ctx.check('CODEC', 'stored records decode to what was encoded (size / encode / decode agreement of Snapshot, PriorEpoch and everything inside)',
+                  stored_codec, floor=50)
     if cfg == 'P':
         S = 'SqLiteGroupStateStorage::update_group_state'
 
